@@ -326,6 +326,14 @@ fn d28_class(m: &Beatmap) -> bool {
     })
 }
 
+/// D31: a slider node that carries a file-name sample (the encoder writes edge sets with banks only)
+fn d31_object(h: &HitObject) -> bool {
+    match &h.kind {
+        HitObjectKind::Slider(s) => s.node_samples.iter().any(|n| n.iter().any(|x| matches!(x.name, HitSampleInfoName::File(_)))),
+        _ => false,
+    }
+}
+
 /// input order: timing-point and hit-object lines in chronological order (text scan)
 pub fn chronological(text: &str) -> bool {
     let mut sec = "";
@@ -473,7 +481,11 @@ pub fn oracle(text: &str, origin: &str, out: &mut Out) {
                     continue;
                 }
                 // a lost object earlier in the list can move a forced new-combo flag
-                let cls = if d19 && matches!(*n, "curve_path" | "curve_lengths" | "velocity") {
+                let cls = if *n == "samples" && c04::d30_object(a) {
+                    "D30"
+                } else if *n == "node_samples" && d31_object(a) {
+                    "D31"
+                } else if d19 && matches!(*n, "curve_path" | "curve_lengths" | "velocity") {
                     "D22"
                 } else if path_item && d13 {
                     "D13"
